@@ -121,7 +121,9 @@ Theorem gates_as_modelled :
   G.receipt_gate_before_actions = true /\
   G.processed_check_before_verify = true /\
   G.processed_set_keyed_by_tx_hash = true /\
-  G.sig_prefix_loop = "i := len(msg.GetSignData()); i > 0; i--"%string.
+  G.sig_prefix_loop = "i := len(msg.GetSignData()); i > 0; i--"%string /\
+  (* routerAttester's deferred report to the metrix listener: see [relay_success_flag] *)
+  G.relay_success_means = "winner is a transaction proof"%string.
 Proof. repeat split; reflexivity. Qed.
 
 Lemma method_tag_inj : forall k k', method_tag k = method_tag k' -> k = k'.
